@@ -305,6 +305,48 @@ func c18Ops() []c18Op {
 			_, derr2 := ike.DecodeDecrypt(b[:len(b)-3], nil, sa, message.Role_Responder)
 			return fmt.Sprintf("%s | same text after hold=%v | truncated refused=%v", first, first == again, derr2 != nil)
 		}},
+		{"to-proposal/edit/hold/again", func(t *tctx) string {
+			// every thread's SA uses the same PRF, integrity algorithm and group (AES key size differs): the proposal an
+			// SA hands out belongs to the caller, who edits it (offers something else) and asks again later
+			cs := c07Case{PRF: 1, Integ: 1, Encr: t.k % 3, DH: 1}
+			want := fmt.Sprintf("%d/%d/%d/%d/%d", 12, ref.EncrKeyLens[cs.Encr]*8, 2, 2, 14)
+			show := func(p *message.Proposal) string {
+				if p == nil || len(p.EncryptionAlgorithm) != 1 || len(p.PseudorandomFunction) != 1 || len(p.IntegrityAlgorithm) != 1 || len(p.DiffieHellmanGroup) != 1 {
+					return "malformed proposal"
+				}
+				return fmt.Sprintf("%d/%d/%d/%d/%d", p.EncryptionAlgorithm[0].TransformID, p.EncryptionAlgorithm[0].AttributeValue, p.PseudorandomFunction[0].TransformID,
+					p.IntegrityAlgorithm[0].TransformID, p.DiffieHellmanGroup[0].TransformID)
+			}
+			sa := infoSA(cs)
+			p1, err := sa.ToProposal()
+			if err != nil {
+				return "error"
+			}
+			first := show(p1)
+			engine.Scribble(p1)
+			t.hold()
+			p2, err := infoSA(cs).ToProposal()
+			if err != nil {
+				return "error"
+			}
+			return fmt.Sprintf("first=%v again=%v", first == want, show(p2) == want)
+		}},
+		{"new-ike-sa-key(source down, then up)", func(t *tctx) string {
+			if t.setConst == nil {
+				return "skipped"
+			}
+			prop, _ := infoSA(c07Case{PRF: 2, Integ: 2, Encr: t.k % 3, DH: 0}).ToProposal()
+			t.setConst(-2)
+			_, _, err := security.NewIKESAKey(prop, []byte{2}, univ.Pat(32, t.k), 3, 4)
+			t.setConst(-1)
+			refused := err != nil
+			t.hold()
+			_, pub, err := security.NewIKESAKey(prop, []byte{2}, univ.Pat(32, t.k), 3, 4)
+			if err != nil {
+				return fmt.Sprintf("refused=%v then error", refused)
+			}
+			return fmt.Sprintf("refused=%v then pub=%x", refused, pub[:8])
+		}},
 		{"random-number(stuck source)", func(t *tctx) string {
 			// this thread's random source is stuck at a constant (other threads' sources are their own)
 			if t.setConst == nil {
